@@ -1,3 +1,4 @@
+import Cctp.Spec.Toy
 import Cctp.Lemmas.LastWrite
 import Cctp.Lemmas.NoPanic
 /-
@@ -930,5 +931,10 @@ theorem pending_owner_lost :
     ∃ g st', exportG inFlight = .ok g ∧ Genesis.init toyExt [] g = .ok st' ∧
       inFlight.get Key.pendingOwner = some (.role [9]) ∧ st'.get Key.pendingOwner = none := by
   refine ⟨_, _, rfl, rfl, ?_, ?_⟩ <;> decide +kernel
+
+/-! non-vacuity: the toy genesis is accepted by validation and by initialisation, so the state it builds is exportable and
+    survives the round trip (the hypotheses of `export_init`, `init_export_partial`, `roundtrip_reachable` are met) -/
+example : Genesis.validate Toy.ext Toy.genesis = true ∧ Genesis.init Toy.ext [] Toy.genesis = .ok Toy.st := ⟨by decide +kernel, rfl⟩
+example : Exportable Toy.st := exportable_of_init Toy.ext Toy.genesis Toy.st rfl
 
 end Cctp.C17
